@@ -1,6 +1,172 @@
+"""C20, textual round trip: s(text) / f(text) / func_from_sig reproduce every universe signature (names, kinds, defaults, annotations,
+return annotation, eager or postponed) -- with the native spelling always, with the modifiers-based spellings (use_modifiers_annotate /
+posoargs / kwoargs) for signatures without positional-only parameters up to the order of keyword-only parameters -- and the function made
+by f returns its arguments keyed by parameter name.  The specification only states equalities here (Trace_PyBind!RoundV); the rendering
+of a signature to text is the harness' (trusted, small)."""
+import itertools
+import json
+import random
+
+from .. import absig, tlc
+from ..algebra import run_trace_leg
+
+OPTS = [dict(use_modifiers_annotate=a, use_modifiers_posoargs=p, use_modifiers_kwoargs=k) for a in (False, True) for p in (False, True) for k in (False, True)]
+
+
+def text_of(ps, literal=False):
+    """the string form read_sig understands; literal: defaults are ints and annotations quoted strings (evaluable anywhere)"""
+    out = []
+    kinds = [p['k'] for p in ps]
+    n_po = kinds.count('po')
+    seen_star = False
+    for i, p in enumerate(ps):
+        k = p['k']
+        if k == 'kwo' and not seen_star:
+            out.append('*')
+            seen_star = True
+        t = p['n']
+        if k == 'var':
+            t = '*' + t
+            seen_star = True
+        elif k == 'vkw':
+            t = '**' + t
+        if p.get('an'):
+            t += ":'A%d'" % p['an'] if literal else ':A%d' % p['an']
+        if p['d']:
+            t += '=%d' % p['dv'] if literal else '=D%d' % p['dv']
+        out.append(t)
+        if k == 'po' and i + 1 == n_po:
+            out.append('/')
+    return ', '.join(out)
+
+
+def project(sig, literal):
+    ps = []
+    for p in sig.parameters.values():
+        d = p.default is not p.empty
+        try:
+            av = p.upgraded_annotation.source_value()
+        except Exception:  # noqa
+            av = 'ERR'
+        if literal:
+            dv = p.default if d and isinstance(p.default, int) else (0 if not d else 99)
+            an = int(av[1:]) if isinstance(av, str) and av[:1] == 'A' and av[1:].isdigit() else (0 if av is p.empty else 99)
+        else:
+            dv = absig.dv_id(p.default)
+            an = absig.an_id(av)
+        ps.append({'n': p.name, 'k': absig.KIND[p.kind], 'd': d, 'dv': dv, 'an': an})
+    return ps
+
+
+def ret_id(sig, literal):
+    try:
+        v = sig.upgraded_return_annotation.source_value()
+    except Exception:  # noqa
+        return 98
+    if v is sig.empty:
+        return 0
+    if literal:
+        return int(v[1:]) if isinstance(v, str) and v[:1] == 'A' and v[1:].isdigit() else 99
+    return absig.an_id(v)
+
+
+def with_meta(ps, rnd):
+    out = []
+    for i, p in enumerate(ps):
+        q = dict(p)
+        q['dv'] = 2 + i if q['d'] else 0
+        q['an'] = (1 + i) if (q['k'] not in ('var', 'vkw') and rnd.random() < 0.5) else 0
+        out.append(q)
+    return out
+
+
+def roundtrip_events(tid, ps0, rnd):
+    from sigtools import support
+    ps = with_meta(ps0, rnd)
+    haspo = any(p['k'] == 'po' for p in ps)
+    ret = rnd.choice([0, 7])
+    for oi, opts in enumerate(OPTS):
+        modspelling = any(opts.values())
+        if modspelling and haspo:
+            continue
+        for future in (False, True):
+            e = {'tid': '%s/rt-%d-%d' % (tid, oi, future), 'op': 'roundtrip', 'how': 's', 'want': ps, 'retwant': ret, 'upto_kwo_order': modspelling,
+                 'case': {'ps0': ps0, 'ps': ps, 'opts': opts, 'future': future, 'ret': ret, 'how': 's'}}
+            try:
+                kw = dict(opts, globals=dict(absig.GLOBALS_BASE), future_features=('annotations',) if future else ())
+                sig = support.s(text_of(ps), *(['A%d' % ret] if ret else []), **kw)
+                e.update(tag='ok', got=project(sig, False), retgot=ret_id(sig, False))
+            except Exception as ex:  # noqa
+                e.update(tag='raise:' + type(ex).__name__, got=[], retgot=0)
+            yield e
+    # func_from_sig on the real signature object (literal defaults / annotations so that its string form can be evaluated anywhere)
+    e = {'tid': tid + '/ffs', 'op': 'roundtrip', 'how': 'func_from_sig', 'want': ps, 'retwant': ret, 'upto_kwo_order': False,
+         'case': {'ps0': ps0, 'ps': ps, 'opts': {}, 'future': False, 'ret': ret, 'how': 'func_from_sig'}}
+    try:
+        src = support.s(text_of(ps, literal=True), *(["'A%d'" % ret] if ret else []))
+        import sigtools
+        back = sigtools.signature(support.func_from_sig(src))
+        e.update(tag='ok', got=project(back, True), retgot=ret_id(back, True))
+    except Exception as ex:  # noqa
+        e.update(tag='raise:' + type(ex).__name__, got=[], retgot=0)
+    yield e
+    # f(text)(*args, **kwargs) returns the arguments keyed by parameter name
+    from .c20 import Val, enc, shapes_for
+    try:
+        fn = support.f(text_of([dict(p, an=0) for p in ps], literal=True))
+        calls = []
+        for np_, kw in shapes_for(ps):
+            args = tuple(Val('P', j + 1) for j in range(np_))
+            kwargs = {k: Val('K', k) for k in kw}
+            try:
+                r = fn(*args, **kwargs)
+                m = {}
+                for k, v in r.items():
+                    p = next(q for q in ps if q['n'] == k)
+                    m[k] = ['D', k] if (p['d'] and v == p['dv'] and not isinstance(v, Val)) else enc(v)
+                calls.append({'np': np_, 'kw': kw, 'py': {'ok': True, 'map': m}})
+            except TypeError:
+                calls.append({'np': np_, 'kw': kw, 'py': {'ok': False}})
+        yield {'tid': tid + '/fcall', 'op': 'fcall', 'ps': ps, 'calls': calls, 'case': {'ps0': ps0, 'ps': ps, 'how': 'fcall'}}
+    except Exception as ex:  # noqa
+        yield {'tid': tid + '/fcall', 'op': 'roundtrip', 'how': 'f', 'want': ps, 'retwant': 0, 'upto_kwo_order': False, 'tag': 'raise:' + type(ex).__name__, 'got': [], 'retgot': 0,
+               'case': {'ps0': ps0, 'ps': ps, 'how': 'fcall'}}
+
+
+def gen_for(U, n, seed):
+    def gen(shard, nshards):
+        rnd = random.Random(seed)
+        idx = list(range(len(U)))
+        rnd.shuffle(idx)
+        for k, i in enumerate(idx[:n]):
+            r2 = random.Random(seed * 1000003 + i)
+            if k % nshards == shard:
+                for e in roundtrip_events('rt/%d' % i, U[i], r2):
+                    yield e
+    return gen
+
+
+def describe(e, case):
+    key = json.dumps([case.get('ps'), case.get('opts'), case.get('future'), case.get('how')], sort_keys=True)
+    return key, False, '%s of (%s) %s -> %s' % (case.get('how'), text_of(case['ps']), {k: v for k, v in (case.get('opts') or {}).items() if v}, e.get('tag', 'calls'))
+
+
 def run_part(check, tier, seed, scratch):
-    check.note('round-trip leg not built yet')
+    quick = tier == 'quick'
+    U = tlc.export_universe(scratch, 'abc', ['args'], ['kwargs'], 3)
+    n = 260 if quick else len(U)
+    run_trace_leg(check, scratch, 'roundtrip', gen_for(U, n, seed), None, module='Trace_PyBind', describe=describe)
+    check.cov['roundtrip_signatures'] = n
 
 
 def replay(check, case, scratch):
-    pass
+    c = case['case']
+
+    def gen(shard, nshards):
+        if shard == 0:
+            want = case['tid'].split('/')[-1]
+            seed_i = int(case['tid'].split('/')[1])
+            for e in roundtrip_events('/'.join(case['tid'].split('/')[:2]), c['ps0'], random.Random(case.get('seed', 0) * 1000003 + seed_i)):
+                if e['tid'].split('/')[-1] == want:
+                    yield e
+    run_trace_leg(check, scratch, 'replay', gen, None, nshards=1, module='Trace_PyBind', describe=describe)
